@@ -28,6 +28,7 @@ import (
 	"io"
 	"io/ioutil"
 	"math"
+	"os"
 	"path"
 	"sync"
 	"time"
@@ -108,6 +109,14 @@ func (ci *cindex) init(ddir string) error {
 		}
 	}
 	ci.cc.cleanup(aiMap)
+
+	// The snapshot describes the chunks as of the last clean shutdown and it is written by close() only. It is
+	// consumed now, so a crash can not leave a snapshot, which is behind the chunks (records added after it would
+	// stay out of its time ranges, and records lost by the crash would stay in the chunk indexes): without the
+	// file the information is collected from the chunks again.
+	if err = os.Remove(ci.dtFileName); err != nil && !os.IsNotExist(err) {
+		ci.logger.Warn("init(): could not remove ", ci.dtFileName, ", err=", err)
+	}
 
 	return nil
 }
